@@ -483,6 +483,110 @@ func (r *runner) mmCycle(rng *sim.Rng, c cfg) {
 	}
 }
 
+func tickOf(p int64) int64 { // tick precision 3 at scale 1e4
+	u := int64(1)
+	for q := p; q >= 10000; q /= 10 {
+		u *= 10
+	}
+	return p / u * u
+}
+
+func (r *runner) batchOf(app int64) {
+	r.block(6)
+	if r.w.Pars[app-1].Batch > 1 {
+		r.block(6)
+	}
+}
+
+// ladderCycle: with a last price L in the pair, a market-making BUY ladder reaching above L is placed; a limit sell
+// below L of exactly (or a little more than) the top tick's amount fills the top tick COMPLETELY at a price better
+// than its own, so the tick ends Completed with unspent offer coin while the lower ticks stay live.
+func (r *runner) ladderCycle(rng *sim.Rng, c cfg) {
+	app := c.apps[rng.Intn(len(c.apps))]
+	prs := c.pairsOf[app]
+	pair := prs[rng.Intn(len(prs))]
+	life := r.w.Pars[app-1].MaxLife
+	hasLp := func() bool {
+		for _, p := range r.st["pairs"].([]M) {
+			if p["app"].(int64) == app && p["id"].(int64) == pair && p["lp"].(int64) > 0 {
+				return true
+			}
+		}
+		return false
+	}
+	if !hasLp() { // establish a last price
+		ctr := tickOf(r.centre(app, pair))
+		r.step("LimitOrder", M{"u": "u1", "app": app, "pair": pair, "dir": "B", "price": ctr, "amt": int64(300), "offer": (ctr*300+PS-1)/PS*12/10 + 2, "life": life})
+		r.step("LimitOrder", M{"u": "u2", "app": app, "pair": pair, "dir": "S", "price": ctr, "amt": int64(300), "offer": int64(400), "life": life})
+		r.batchOf(app)
+		if !hasLp() {
+			return
+		}
+	}
+	L := r.centre(app, pair)
+	owner, other := Users[rng.Intn(3)], Users[rng.Intn(3)]
+	for other == owner {
+		other = Users[rng.Intn(3)]
+	}
+	amt := []int64{900, 1500, 3000, 1000}[rng.Intn(4)]
+	nt := r.w.Pars[app-1].MaxTicks
+	hi := tickOf(L * int64(102+rng.Intn(5)) / 100)
+	r.step("MMOrder", M{"u": owner, "app": app, "pair": pair, "sellAmt": int64(0), "minSell": int64(0), "maxSell": int64(0),
+		"buyAmt": amt, "minBuy": tickOf(L * 93 / 100), "maxBuy": hi, "life": life})
+	if rng.Intn(2) == 0 {
+		r.batchOf(app)
+	}
+	top := amt - (nt-1)*(amt/nt) // amount of the ladder's highest tick
+	q := top
+	switch rng.Intn(3) {
+	case 0:
+		q = top + 100 // the next tick is partially filled as well
+	case 1:
+		q = top + top/2
+	}
+	sp := tickOf(L * int64(95+rng.Intn(4)) / 100)
+	r.step("LimitOrder", M{"u": other, "app": app, "pair": pair, "dir": "S", "price": sp, "amt": q, "offer": q + q/5 + 1, "life": life})
+	r.batchOf(app)
+	r.block(6)
+}
+
+// cancelAllCycle: one user has an older order in the higher-id pair and a fresh order (current batch) in the
+// lower-id pair of the same app, then cancels all orders (all pairs / named pairs).
+func (r *runner) cancelAllCycle(rng *sim.Rng, c cfg) {
+	for _, app := range c.apps {
+		if len(c.pairsOf[app]) < 2 {
+			continue
+		}
+		u := Users[rng.Intn(3)]
+		life := r.w.Pars[app-1].MaxLife
+		place := func(pair int64) {
+			ctr := r.centre(app, pair)
+			dir, price := "S", tickOf(ctr*106/100)
+			if rng.Intn(2) == 0 {
+				dir, price = "B", tickOf(ctr*94/100)
+			}
+			amt := amtGrid[rng.Intn(len(amtGrid))]
+			offer := amt + amt/5 + 1
+			if dir == "B" {
+				offer = (price*amt+PS-1)/PS*12/10 + 2
+			}
+			r.step("LimitOrder", M{"u": u, "app": app, "pair": pair, "dir": dir, "price": price, "amt": amt, "offer": offer, "life": life})
+		}
+		place(2)
+		if rng.Intn(2) == 0 {
+			place(1)
+		}
+		r.batchOf(app)
+		place(1) // fresh: still in its placement batch
+		if rng.Intn(3) == 0 {
+			place(2)
+		}
+		ps := [][]int64{{}, {}, {1, 2}, {2, 1}, {2}}[rng.Intn(5)]
+		r.step("CancelAll", M{"u": u, "app": app, "pairs": ps})
+		return
+	}
+}
+
 // drain cancels everything that is live so that "nothing remains in escrow" is evaluated on empty books.
 func (r *runner) drain(c cfg) {
 	r.block(6)
@@ -609,13 +713,22 @@ func driveRandom(lg *sim.Log, base *World, seed int64, runs, steps int) {
 			r.step("CreatePair", M{"u": "u1", "app": c.apps[0], "base": "uaa", "quote": "ubb"}) // duplicate
 		}
 		cyc := []int{steps / 4, steps * 2 / 3}
+		lad := []int{steps / 6, steps / 2, steps * 5 / 6}
+		call := []int{steps / 3, steps * 3 / 4}
 		for r.n < steps {
-			if c.mm && len(cyc) > 0 && r.n >= cyc[0] {
+			switch {
+			case c.mm && len(cyc) > 0 && r.n >= cyc[0]:
 				cyc = cyc[1:]
 				r.mmCycle(rng, c)
-				continue
+			case c.mm && len(lad) > 0 && r.n >= lad[0]:
+				lad = lad[1:]
+				r.ladderCycle(rng, c)
+			case len(call) > 0 && r.n >= call[0]:
+				call = call[1:]
+				r.cancelAllCycle(rng, c)
+			default:
+				r.randomStep(rng, c)
 			}
-			r.randomStep(rng, c)
 		}
 		r.drain(c)
 	}
@@ -714,6 +827,10 @@ type bfsItem struct {
 func explore(lg *sim.Log, base *World, al alphabet, budget, maxDepth int) (executed, states int) {
 	root := newRunner(lg, base, fmt.Sprintf("explore:%s:%d", al.Scope, al.App))
 	root.step("CreatePair", M{"u": "u1", "app": al.App, "base": "uaa", "quote": "ubb"})
+	if al.Scope == "pairs" {
+		root.step("CreatePair", M{"u": "u1", "app": al.App, "base": "ubb", "quote": "ucc"})
+	}
+	failed := 0
 	seen := map[string]bool{hashOf(root.st): true}
 	queue := []bfsItem{{r: root}}
 	for len(queue) > 0 && executed < budget {
@@ -734,11 +851,19 @@ func explore(lg *sim.Log, base *World, al alphabet, budget, maxDepth int) (execu
 			if a.A == "EndBlock" {
 				args = M{}
 			}
+			nodes := len(lg.Nodes)
 			res := b.step(a.A, args)
-			executed++
 			if ok, _ := res["ok"].(bool); !ok {
+				// rejected messages change nothing: deeper in the tree only every 4th of them is kept in the log
+				failed++
+				if it.depth >= 2 && failed%4 != 0 && len(lg.Nodes) == nodes+1 {
+					lg.Nodes = lg.Nodes[:nodes]
+				} else {
+					executed++
+				}
 				continue
 			}
+			executed++
 			h := hashOf(b.st)
 			if a.A == "EndBlock" {
 				h += "/end"
